@@ -100,7 +100,7 @@ class Call:
 class Entry:
     def __init__(self, name, strategy, build, returns=True, dtypes=REAL, backends=False,
                  c18_exempt=None, real_ok=None, gseed=False, quick=80, thorough=800, c18=True,
-                 c15=True):
+                 c15=True, flags=()):
         self.name = name
         self.strategy = strategy
         self.build = build
@@ -114,6 +114,7 @@ class Entry:
         self.thorough = thorough
         self.c18 = c18 and returns
         self.c15 = c15
+        self.flags = tuple(flags)     # "cvg": e["bad"] selects an invalid cvg_criterion (exit by exception)
 
 
 def register(*a, **k):
@@ -167,6 +168,8 @@ def c18_case(draw, entry):
         c["backend"] = draw(st.sampled_from(["core", "einsum"]))
     if entry.gseed:
         c["gseed"] = draw(gen.seeds)
+    if c["e"].get("bad") is True and "cvg" in entry.flags:
+        c["e"]["bad"] = False        # C18 needs a result: no exit-by-exception cases
     return c
 
 
@@ -205,6 +208,12 @@ def _snapshot(call):
     out = {}
     for k, v in call.kwargs.items():
         if k in call.exempt or isinstance(v, np.random.RandomState):
+            continue
+        if k == "ctor" and isinstance(v, dict):      # estimator constructor arguments: one slot per parameter
+            for k2, v2 in v.items():
+                if not isinstance(v2, np.random.RandomState):
+                    out[f"ctor.{k2}"] = (snap.freeze(v2), _ident(v2))
+            out["ctor"] = (snap.freeze(sorted(v)), None)
             continue
         out[k] = (snap.freeze(v), _ident(v))
     return out
@@ -365,6 +374,8 @@ def c18_oracle(entry, case):
         except Exception as e:  # noqa
             _handle_exc(e, call, "c18")
             discard("expected-exception")
+    if case["e"].get("return_errors") is True and isinstance(res, tuple) and len(res) == 2 and isinstance(res[1], list):
+        res = res[0]                 # (decomposition, errors): same paths as without return_errors
     suffix = ""
     m = case["e"].get("mask")
     if isinstance(m, dict) and m.get("kind") == "bool":
@@ -380,7 +391,8 @@ def c18_oracle(entry, case):
         ok = a.dtype == dtype
         if not ok and dtype.kind == "c" and entry.real_ok is not None and entry.real_ok(np_):
             ok = a.dtype == ctx.rdtype
-        check(ok, f"dtype:{np_}{suffix}", lambda: f"{entry.name}: {path} has dtype {a.dtype}, input dtype {dtype}")
+        check(ok, "dtype@boolmask" if suffix else f"dtype:{np_}",
+              lambda: f"{entry.name}: {path} has dtype {a.dtype}, input dtype {dtype}" + (" (boolean mask)" if suffix else ""))
     labels.append("arrays=yes" if n else "arrays=none")
     return {"nontrivial": bool(n) and dtype != np.dtype("float64"), "labels": labels + _case_labels(case["e"])}
 
